@@ -245,7 +245,18 @@ def gen_plan(seed, tier):
       msgs[i] = W.enc_packet_in(0x100 + i, W.NO_BUFFER, len(data), 1, 0, data)
     else:
       msgs[i] = W.enc_echo_request(0x100 + i, r.randbytes(T - 8))
+  rt = Rng(mix(seed, "tiny"))
+  tiny = side == "ctl" and rt.chance(0.05)
+  if tiny:
+    # a long run of minimum-size messages: hundreds of complete messages in
+    # one 2048-byte read (and nothing behind them to stir things up)
+    k = rt.pick([129, 130, 200, 256, 300, 600])
+    msgs = [W.enc_barrier_reply(0x100 + i) if rt.chance(0.7)
+            else W.enc_echo_reply(0x100 + i, b"abcd"[:rt.randint(0, 4)])
+            for i in range(k)]
   cuts = _cuts(r, msgs)
+  if tiny and rt.chance(0.6):
+    cuts = []
   delays = []
   for _ in range(len(cuts) + 1):
     delays.append(r.wpick([(3, 0), (3, 1), (2, r.randint(2, 40)),
@@ -263,6 +274,9 @@ def gen_plan(seed, tier):
   cfg["talk_first"] = side == "sw" and Rng(mix(seed, "first")).chance(0.3)
   if huge and cfg["recv_mode"] == "dribble":
     cfg["recv_mode"] = "choose"     # 64 KiB one byte per cycle: too slow
+  if tiny:
+    cfg["recv_mode"] = "all"
+    cfg["tiny_run"] = True
   # steps: one per message (so the minimiser can drop messages); cuts are
   # kept as fractions of the stream so they survive deletions
   total = sum(len(m) for m in msgs)
